@@ -320,10 +320,13 @@ def _table_element(ctx, table: str):
         if p is loop:
             break
         if isinstance(p, ast.If):
-            guard = unparse(p.test).replace(" ", "")
+            from ..astutil import conjuncts
+            c_ = conjuncts(p.test, any(app is x for s_ in p.body for x in ast.walk(s_)))
+            atoms = {(t_, pol_) for t_, pol_, _ in c_} if c_ is not None else None
+            guard = True if atoms == {("%s == 0" % a, False), ("%s == 0" % b, False)} else unparse(p.test)
     off = 0
     if guard is not None:
-        if guard in ("%s!=0and%s!=0" % (a, b), "%s!=0and%s!=0" % (b, a)):
+        if guard is True:
             off = 1
         else:
             return None, "append is guarded by `%s`" % guard
